@@ -59,6 +59,9 @@ def gen_response_spec(r: random.Random, proto: str = "h1", small: bool = True) -
         "data_chunk": r.choice([None, 1, 7, 100, 16384]) if proto == "h2" else None,
         "pad": r.choice([None, None, 0, 5]) if proto == "h2" else None,
     }
+    # zero-length DATA frames without END_STREAM before every n-th DATA frame (derived from values drawn above, so that
+    # the specs of earlier seeds stay what they were)
+    spec["empty_every"] = [None, None, 1, 2][spec["hseed"] % 4] if proto == "h2" else None
     # position on the connection: first response, or after 1-2 kept-alive exchanges
     spec["warm"] = r.choice([0, 0, 1, 2])
     # large header blocks (HTTP/1.1, below httpcore's documented 100 KiB limit for one incomplete event)
